@@ -390,6 +390,14 @@ class Gen:
             self.scopes.pop()
             body.append(Asg(iv, Op('+', V(iv), I(1))))
             return Blk([pre, Wh(Op('<', V(iv), I(bound)), Blk(body)), V(iv)]) if False else self._seq([pre, Wh(Op('<', V(iv), I(bound)), Blk(body))])
+        if c < 0.70 and self.nolet == 0:
+            # an array whose size is a variable that its own compound initializer changes (the size is fixed when the definition starts)
+            sv, av = self.fresh('sz'), self.fresh('ar')
+            if self.can_define(sv) and self.can_define(av):
+                k = r.randint(1, 4)
+                self.define(sv, 'int')
+                self.define(av, ('arr', k, 'int'))
+                return self._seq([Let(sv, I(k)), Let(av, Arr(V(sv), Blk([Asg(sv, Op('-', V(sv), I(1))), V(sv)]))), Pr('~ ~\\n', [V(av), V(sv)])])
         if c < 0.74:
             return self.block(d - 1)
         if c < 0.8:
@@ -414,6 +422,9 @@ class Gen:
                     return MC(V(o), m, [self.e_int(d - 1) for _ in range(a)])
         if c < 0.92 and self.funs:
             return self.call(r.choice(list(self.funs.keys())), d)
+        if c < 0.93:
+            # an operator called as a method with another number of arguments (parses; fails at run time on primitives)
+            return MC(self.e_int(1), r.choice(['+', '*', '<=', '==', '&']), [self.e_int(1) for _ in range(r.choice([0, 2, 3]))])
         if c < 0.96:
             vs = list(self.visible().keys())
             if vs:
